@@ -311,3 +311,65 @@ def rewrite_rev_range(body, counts, invariants):
         body = body[:m.start()] + new + body[bc + 1:]
         counts['R3'] = counts.get('R3', 0) + 1
         k += 1
+
+
+def rewrite_rev_iter(body, counts, invariants):
+    """R3s: `for n in X.iter().rev() { S }` (S without break/continue)  ->
+       `let mut ridxK_ = X.len(); while ridxK_ > 0 <invariant> { ridxK_ -= 1; let n = &X[ridxK_]; S }`
+    (DoubleEndedIterator of a slice: elements from the last to the first, by reference)."""
+    k = 0
+    while True:
+        src = Source(body)
+        m = None
+        for mm in re.finditer(r'\bfor\s+([A-Za-z_]\w*)\s+in\s+([A-Za-z_]\w*)\.iter\(\)\.rev\(\)\s*\{', body):
+            if src.mask[mm.start()]:
+                m = mm
+                break
+        if not m:
+            if k != len(invariants):
+                raise AnchorLost(f"reverse-iterator loop count changed: {k} in code, {len(invariants)} specified")
+            return body
+        if k >= len(invariants):
+            raise AnchorLost("more reverse-iterator loops than specified")
+        bo = m.end() - 1
+        bc = src.match_close(bo)
+        inner = body[bo + 1:bc]
+        if re.search(r'\b(break|continue)\b', inner):
+            raise Unsupported("reverse-iterator loop with break/continue")
+        v, arr = m.group(1), m.group(2)
+        i = f"ridx{k + 1}_"
+        new = (f"let mut {i}: usize = {arr}.len(); while {i} > 0\n{invariants[k].replace('{i}', i)}\n    decreases {i}\n"
+               f"{{ {i} -= 1; let {v} = &{arr}[{i}]; {inner} }}")
+        body = body[:m.start()] + new + body[bc + 1:]
+        counts['R3s'] = counts.get('R3s', 0) + 1
+        k += 1
+
+
+def rewrite_for_array_ref(body, counts, invariants):
+    """R4b: `for r in &ARR { B }` (ARR a local const array; B may break)  ->
+       `let mut aidxK_: usize = 0; while aidxK_ < ARR.len() <invariant> { let r = &ARR[aidxK_]; aidxK_ += 1; B }`
+    (the increment precedes B, so `break` / `continue` in B keep their meaning)."""
+    k = 0
+    while True:
+        src = Source(body)
+        m = None
+        for mm in re.finditer(r'\bfor\s+([A-Za-z_]\w*)\s+in\s+&([A-Z][A-Z0-9_]*)\s*\{', body):
+            if src.mask[mm.start()]:
+                m = mm
+                break
+        if not m:
+            if k != len(invariants):
+                raise AnchorLost(f"array loop count changed: {k} in code, {len(invariants)} specified")
+            return body
+        if k >= len(invariants):
+            raise AnchorLost("more array loops than specified")
+        bo = m.end() - 1
+        bc = src.match_close(bo)
+        inner = body[bo + 1:bc]
+        v, arr = m.group(1), m.group(2)
+        i = f"aidx{k + 1}_"
+        new = (f"let mut {i}: usize = 0; while {i} < {arr}.len()\n{invariants[k].replace('{i}', i)}\n    decreases {arr}.len() - {i}\n"
+               f"{{ let {v} = &{arr}[{i}]; {i} += 1; {inner} }}")
+        body = body[:m.start()] + new + body[bc + 1:]
+        counts['R4b'] = counts.get('R4b', 0) + 1
+        k += 1
